@@ -85,6 +85,8 @@ def gen_channel(rng, bnodes):
     ch["explicit_string_dt"] = rng.random() < 0.3    # "abc"^^xsd:string instead of "abc": the same RDF term
     if tr == "files" and rng.random() < 0.3:
         ch["special_member"] = rng.randrange(ch["parts"])
+    if tr == "files" and rng.random() < 0.25:
+        ch["path_objects"] = rng.choice(["all", "some"])
     if tr in ("gz", "xz") and rng.random() < 0.35:
         ch["members"] = rng.randint(2, 3)
     if tr == "zip" and rng.random() < 0.5:
@@ -197,6 +199,10 @@ def build_channel(sim, triples, ch, tag):
             (sim.write_special_file if (ch.get("special_member") == i and fmt in ("nt", "tsv_spo", "turtle_iter")) else sim.write_file)(
                 ("%s_part[%d].%s" if ch.get("magic_names") else "%s_%d.%s") % (tag, i, ext), d)
             for i, d in enumerate(docs)]
+        if ch.get("path_objects"):
+            import pathlib      # os.PathLike entries, alone or next to plain strings
+            kw["graph_list_of_files_input"] = [pathlib.Path(p) if (j % 2 == 0 or ch["path_objects"] == "all") else p
+                                               for j, p in enumerate(kw["graph_list_of_files_input"])]
     elif tr in ("gz", "xz"):
         paths = []
         for i, d in enumerate(docs):
